@@ -728,7 +728,8 @@ func checkForwarding(r *Run, prog *Program, a *Anchors, pfx string) {
 			continue
 		}
 		var pOwn *Sym
-		if fn.Signature.Variadic() && isOptSlice(fn.Params[len(fn.Params)-1].Type()) {
+		if (fn.Signature.Recv() == nil || len(fn.Params) > 1) && isOptSlice(fn.Params[len(fn.Params)-1].Type()) {
+			// the options list is the last parameter, variadic or an ordinary slice
 			pOwn = paramSym(fn.Params[len(fn.Params)-1])
 		} else if rv := fn.Signature.Recv(); rv != nil && a.EvalSet[fn] {
 			// a method of a struct that carries the evaluation's options in a field: that field is the caller's list
@@ -756,6 +757,9 @@ func checkForwarding(r *Run, prog *Program, a *Anchors, pfx string) {
 		// caller's own list, or a fresh copy of it extended by appends
 		ps := NewPathSim(prog)
 		ps.Inline = func(c *ssa.Function) bool {
+			if np := c.Signature.Params().Len(); np > 0 && isOptSlice(c.Signature.Params().At(np-1).Type()) {
+				return false // a sub-evaluation: its call is what the rule looks at
+			}
 			return bexprHelper(prog, a, c) && !recursive(prog, c) && !c.Signature.Variadic()
 		}
 		type verdict struct {
@@ -766,7 +770,7 @@ func checkForwarding(r *Run, prog *Program, a *Anchors, pfx string) {
 		var order []ssa.CallInstruction
 		for _, sm := range ps.Run(fn) {
 			for _, ev := range sm.Events() {
-				if ev.Instr == nil || ev.Inlined || ev.Callee == nil || !prog.InModule(ev.Callee) || !ev.Callee.Signature.Variadic() || len(ev.Args) == 0 {
+				if ev.Instr == nil || ev.Inlined || ev.Callee == nil || !prog.InModule(ev.Callee) || ev.Callee.Signature.Params().Len() == 0 || len(ev.Args) == 0 {
 					continue
 				}
 				last := ev.Args[len(ev.Args)-1]
